@@ -144,6 +144,8 @@ pub fn dump_cmd(args: &[String]) {
     let mir = samlang_compiler::verif_hooks::compile_sources_to_mir_staged(heap, &checked, |name, h, src| {
       std::fs::write(format!("{}/mir_{}.json", od, name), crate::irjson::mir_sources(h, src)).unwrap();
       stage_files.push(format!("mir_{}.json", name));
+    }, |h, src| {
+      std::fs::write(format!("{}/hir.json", od), crate::irjson::hir_sources(h, src)).unwrap();
     });
     written.extend(stage_files);
     std::fs::write(format!("{}/mir_unopt.json", outdir), crate::irjson::mir_sources(heap, &mir)).unwrap();
